@@ -64,7 +64,8 @@ CHECKS = {
          "Verdict direction: observed effect => flag present, real call allowed => spec allows; the converse is drift.",
          "two-level TLA+ spec; TLC exhaustive Impl=>Abstract; TLC case enumeration replayed on the real engine; TLC trace validation of per-context flag/effect records"),
  "C18": ("model_checking",
-         "PARTIAL (parallel multisig, Merkle root, VM integer codec). Multisig: TLC explores every interleaving of main loop, 3 workers, task channel "
+         "Parallel multisig, Merkle root and the VM integer codec (below), the number / identifier codecs and the key / signature algebra (extensions, at the end). "
+         "Multisig: TLC explores every interleaving of main loop, 3 workers, task channel "
          "(capacity 2) and result channel of vm.CheckMultisigPar for every realisable validity matrix with n<=5 keys (repeats allowed), m<=4 signatures and "
          "every boolean matrix with n,m<=4: answer = OrderedMatch, no deadlock, termination. All 21,456 delivery orders for n<=4 (sample for n=5) are "
          "replayed on the real vm.CheckMultisigPar with real P-256 keys/signatures, results released one at a time through the vm.VerifMultisigGate hook "
@@ -75,8 +76,8 @@ CHECKS = {
          "up to 34 bytes and exhaustively on short strings / small values; real bigint.ToBytes/FromBytes, stackitem.BigInteger.Bytes(), VM CONVERT and "
          "emit.BigInt judged by TLC (denotation, minimality, round trip, normalisation, input preserved).",
          "DESIGN.md section 4 C18",
-         "NOT addressed (outside the studied family): sign/verify algebra, RFC 6979 reproducibility, WIF/NEP-2, Base58Check, address/Uint160/Uint256/Fixed8 "
-         "string codecs. Trusted: TLC, Go's testing/synctest for quiescence, crypto/sha256, math/big readback, the gate hook sitting before "
+         "The cryptographic primitives themselves (ECDSA, scrypt, AES, SHA-256, RIPEMD-160) are uninterpreted: the algebra the statement asserts over them is "
+         "specified and judged, their arithmetic is not. Trusted: TLC, Go's testing/synctest for quiescence, crypto/sha256, math/big readback, the gate hook sitting before "
          "verify-and-deliver; the hash is injective in the Merkle model; the validity matrix is taken from the real Verify.",
          "TLC exhaustive interleavings; gate-hook replay of TLC delivery orders on the real checker; TLC trace validation; spec-as-oracle enumeration"),
  "C19": ("model_checking",
@@ -350,6 +351,14 @@ EXTRA_TEXT = {
         "quick, 20 643 thorough, executed forward and in reverse), the codecs are specified as PURE functions (CodecHistory refined by CodecHistoryImpl "
         "with decimal.go's power table as memo; eight named deviations refuted) and TLC-generated call histories are replayed each in one fresh process; "
         "seeded inputs and every single-character change of each address judged by TLC (NumCodecTrace).",
+ "C18": " Extension keys (spec/keys, harness/c18keys): KeyAlgebra.tla - 11 sorts, 27 operations over uninterpreted primitives with an outcome class and normal "
+        "form per term and the laws (sign/verify soundness incl. altered signatures, Dec(Enc(x)) = x for public / private keys, WIF and NEP-2, NEP-2 opens exactly for the "
+        "NFC class of its passphrase, mangled inputs refused or decoded to something else, verification script / script hash / address agree); every term with <= 5 "
+        "operations (15 822 quick, 25 125 thorough) evaluated with the real functions under 4-15 instantiations (edge keys, X coordinates valid on both curves, seven "
+        "families of non-NFC passphrases, standard scrypt parameters); ten named deviations refuted. Decoding a public key is a PURE function: KeyCache refined by "
+        "KeyCacheImpl (the LRU cache of publickey.go, capacity 2-3 exhaustive, four deviations refuted), TLC call histories replayed each in a fresh process against an "
+        "independent curve-equation decoder. KeysTrace judges seeded call sequences by the term-equality closure and exhaustive single-change sweeps of WIF / NEP-2 / "
+        "address strings, serialized keys and signatures.",
  "C20": " Later additions: LedgerOnce.tla (AddBlock as one critical section; deviation CheckOutsideLock refuted) bound by rounds in which 2-5 goroutines "
         "offer decoded copies of the SAME next block (+ a stale one) to the real Blockchain.AddBlock, judged by TLC (StoredExactlyOnce, HeightByOne, "
         "StateAsReference); stripped-body junk blocks in state sync; two scripted worlds reproducing the listed findings of state-synchronised nodes. "
